@@ -33,6 +33,7 @@ import json, os, re, sys
 from fractions import Fraction
 sys.path.insert(0, os.path.dirname(os.path.abspath(__file__)))
 import symexec as sx
+import strict
 from symexec import OutOfGrammar
 import gen_lbfgs as gl
 
@@ -769,6 +770,10 @@ class OExec(sx.Exec):
         if lv[0] == "IGNORED" or rv0[0] == "IGNORED":
             if lv[0] != "IGNORED":
                 self.oog("an untranslated quantity flows into %s" % toks_text(lhs))
+            # not translated, but accounted for: exactly the two known updates of the condition estimate
+            rt = "".join(t[1] for t in rhs)
+            if op != "=" or not (rt == "1" or re.fullmatch(r"std::min\([^\W\d][\w\u0300-\u036f]*\.rcond\(\),min_rcond\)", rt)):
+                self.oog("update of the untranslated %s other than `= 1` / `= std::min(F.rcond(), min_rcond)`" % toks_text(lhs))
             return rest(env)
         e = r.simple(rv0)
 
@@ -964,7 +969,11 @@ def layout(repo):
             mm = re.fullmatch(r"\s*(\w+)\s*=\s*(\d+)\s*", item)
             if not mm:
                 raise OutOfGrammar("layout: enumerator %r" % item)
+            if mm.group(1) in enum:
+                raise OutOfGrammar("layout: enumerator %s twice" % mm.group(1))
             enum[mm.group(1)] = int(mm.group(2))
+    if list(enum) != ["i_u", "i_h", "i_c", "i_h_N", "i_c_N"]:
+        raise OutOfGrammar("layout: enumerators of Indices are %s" % list(enum))
     getters = {}
     gm = list(re.finditer(r"\blength_t\s+(\w+)\s*\(([^)]*)\)\s*const\s*\{\s*return\s+([^;{}]+);\s*\}", st))
     for g in gm:
@@ -1111,9 +1120,14 @@ def unit_function(repo, rel, struct, fname, gname, dims_from_dim=False):
         if out:
             outs.append(cname)
     if dims_from_dim:
-        md = re.search(r"\bstruct\s+Dim\s*\{.*?\blength_t\s+([\w\s,]+);", src, re.S)
-        if not md:
-            raise OutOfGrammar("%s: struct Dim" % what)
+        try:
+            dm = strict.account(strict.split_statements(struct_text(src, "Dim", what)),
+                                [("config", strict.lit("USING_ALPAQA_CONFIG(Conf);"), "1"), ("dims", r"length_t\s+([\w\s,]+);", "1"),
+                                 ("Horizon", r"struct\s+Horizon\s*\{.*\}\s*;", "1"), ("horizon()", strict.lit("Horizon horizon() const { return {N}; }"), "1")],
+                                "struct Dim")
+        except strict.Unaccounted as ex:
+            raise OutOfGrammar("%s: %s" % (what, ex))
+        md = dm["dims"]
         u.dim_order = [x.strip() for x in md.group(1).split(",")]
         for f in u.dim_order:
             cell("dim." + f, "N", f)
